@@ -595,7 +595,7 @@ func (ip *Interp) store(addr, val Value) {
 			}
 			return
 		}
-		undecided("whole-struct store into %s", a.ID)
+		undecided("whole-struct store of %s into %s", Show(val), a.ID)
 	default:
 		undecided("store through %s", Show(addr))
 	}
